@@ -39,6 +39,9 @@ ESTIMATORS = {
 
 
 def run(ctx, obs):
+    from ..rules import order as _order
+    _order.contracts(ctx, obs, ['util.data_utils.get_unique_inverse', 'data.computations.average_dataset_by'])
+    _order.report(ctx, obs, ['rdm.calc.', 'data.computations.', 'util.data_utils.'])
     from ..rules import sweeps
     sweeps.run(ctx, obs, 'C01')
     prog, dep = ctx.prog, ctx.dep
